@@ -156,6 +156,66 @@ def _min_with_len_of(b, op, recv_root, at_bb=None):
 _IV = {}
 
 
+def _stable_root(b, op):
+    """The local an integer operand is a plain copy of, provided that local is assigned at most once and is
+    never mutably borrowed (so every copy of it anywhere in the body has the same value); else None."""
+    cur = op
+    for _ in range(6):
+        if not is_place(cur) or cur["p"]["pr"]:
+            return None
+        l = cur["p"]["l"]
+        ds = b.whole_defs(l)
+        if len(ds) == 1 and ds[0][2] == "assign" and ds[0][3]["rv"]["k"] == "use" and is_place(ds[0][3]["rv"]["op"]) and not ds[0][3]["rv"]["op"]["p"]["pr"]:
+            cur = ds[0][3]["rv"]["op"]
+            continue
+        is_param = 1 <= l <= b.nargs
+        if len(ds) > 1 or (is_param and ds) or (not is_param and not ds):
+            return None
+        for blk in b.blocks:
+            for s_ in blk["stmts"]:
+                if s_["k"] == "assign" and s_["rv"]["k"] in ("ref", "rawptr") and s_["rv"].get("mut", True) and s_["rv"]["p"]["l"] == l:
+                    return None
+                if s_["k"] == "assign" and s_["p"]["l"] == l and s_["p"]["pr"]:
+                    return None
+        return l
+    return None
+
+
+def _ordered_by_guard(b, bi, a, c):
+    """`a - c` cannot underflow because a comparison of the same two (immutable) values, taken on an edge that
+    dominates the subtraction, established a >= c (`if a <= c { return }`, `if c < a { .. a - c .. }`, ...)."""
+    ra, rc = _stable_root(b, a), _stable_root(b, c)
+    if ra is None or rc is None or ra == rc:
+        return None
+    for sb in sorted(b.reach()):
+        blk = b.blocks[sb]
+        sw = blk["term"]
+        if sw["k"] != "switch" or sw.get("discr_ty") != "bool" or not is_place(sw["discr"]):
+            continue
+        dl = sw["discr"]["p"]["l"]
+        cmp_ = [s_ for s_ in blk["stmts"] if s_["k"] == "assign" and not s_["p"]["pr"] and s_["p"]["l"] == dl and s_["rv"]["k"] == "binop" and s_["rv"]["op"] in ("Le", "Lt", "Ge", "Gt")]
+        if not cmp_:
+            continue
+        rv = cmp_[-1]["rv"]
+        x, y = _stable_root(b, rv["a"]), _stable_root(b, rv["b"])
+        if {x, y} != {ra, rc} or None in (x, y):
+            continue
+        opn = rv["op"]
+        if x == rc:
+            # normalise to a comparison `a ? c`
+            opn = {"Le": "Ge", "Lt": "Gt", "Ge": "Le", "Gt": "Lt"}[opn]
+        zero = [t_ for v_, t_ in sw["targets"] if v_ == 0]
+        edges = []
+        if opn in ("Ge", "Gt"):
+            edges.append((sb, "otherwise", sw["otherwise"]))  # comparison true: a >= c
+        elif zero:
+            edges.append((sb, 0, zero[0]))  # `a <= c` / `a < c` false: a > c / a >= c
+        for e in edges:
+            if b.edge_dominates(e[0], e[1], e[2], bi):
+                return f"guarded subtraction: the edge at line {blk['term'].get('line')} establishes `{b.local_name(ra) or ra}` >= `{b.local_name(rc) or rc}` for the same immutable values"
+    return None
+
+
 def local_proof(b, bi):
     """Reason string when the panic-capable terminator of block bi is dead by a local argument, else None."""
     import ival
@@ -175,6 +235,9 @@ def local_proof(b, bi):
             la, lc = _len_of(b, a), _len_of(b, c)
             if la is not None and lc is not None and _subslice_of(b, lc, la):
                 return f"len(x) - len(y) with y a sub-slice of x (`{b.local_name(la) or la}` / `{b.local_name(lc) or lc}`)"
+            why = _ordered_by_guard(b, bi, a, c)
+            if why:
+                return why
         if b.id not in _IV:
             _IV[b.id] = ival.Interval(b)
         iv = _IV[b.id]
